@@ -223,6 +223,18 @@ def check(rep, ctx):
     for row in custom_type_rows(ctx):
         rep.check(R_CT, row["ok"], construct="codegen.generate_schema:CustomTypeDef.get_definition", stmt=row["case"], message=row["message"],
                   file="codegen/generate_schema.py", line=0)
+    from ..gen_tables import primitive_array_lines, generated_modules
+    R_GL = rep.rule("C04-c-lines", "the field lines and classes the current generator emits for synthetic definitions have the shape of the shipped "
+                    "ones (uuid items optional, tagged all-default structs defaulted, class variables, order)", floor=20)
+    pa_problems, pa_cases = primitive_array_lines(ctx)
+    for aspect, probs in pa_problems.items():
+        if aspect == "nullability":
+            continue  # generator and shipped schema agree here (both drop it: finding F11 of C16); C04 is about their agreement
+        rep.check(R_GL, not probs, construct="codegen.generate_schema:generate_primitive_array_field", stmt=f"{aspect} of primitive array fields",
+                  message=f"{len(probs)} of {pa_cases} cases: " + "; ".join(probs[:3]), file="codegen/generate_schema.py", line=0)
+    for row in generated_modules(ctx):
+        rep.check(R_GL, row["ok"], construct="codegen.generate_schema:generate_models", stmt=row["case"], message=row["message"],
+                  file="codegen/generate_schema.py", line=0)
     rep.extra.update(modules=len(S.modules), classes=len(S.classes), reference=str(ref["build_tag"]), baseline_differences=len(diffs))
     rep.assumptions.append("the schema of the pinned commit is the generator's output for Kafka 3.9.0 (the reference is frozen from it)")
     rep.trusted_base += ["/verif/reference/schema-3.9.0.json.gz", "/verif/spec/api_pins.json", "kverif/spec.py API key table"]
